@@ -5,6 +5,7 @@
 package main
 
 import (
+	"crypto/sha256"
 	"encoding/json"
 	"flag"
 	"fmt"
@@ -69,6 +70,93 @@ type runner struct {
 	idset map[string]bool
 	gids  map[string]bool
 	svcs  []string // local services "chain:svc"
+	reps  []*core.Node // extra replicas fed with the very same blocks (C01)
+	rrng  *rand.Rand
+	nrep  int
+}
+
+func digest(res *core.BlockResult) map[string]interface{} {
+	h := res.Block.BlockHeader
+	rc := []string{}
+	for _, r := range res.Receipts {
+		evh := sha256.New()
+		for _, e := range r.Events {
+			b, _ := e.Marshal()
+			evh.Write(b)
+		}
+		rc = append(rc, fmt.Sprintf("%s|%s|%x|%x|%x", r.TxHash.String(), r.Status.String(), sha256.Sum256(r.Ret), evh.Sum(nil), r.Hash().Bytes()))
+	}
+	meta := ""
+	if res.Meta != nil {
+		// canonical rendering of the interchain / timeout / multi-tx delivery metadata (order inside a list matters)
+		var parts []string
+		ks := []string{}
+		for k := range res.Meta.Counter {
+			ks = append(ks, k)
+		}
+		sort.Strings(ks)
+		for _, k := range ks {
+			parts = append(parts, fmt.Sprintf("C:%s=%v", k, res.Meta.Counter[k].Slice))
+		}
+		ks = ks[:0]
+		for k := range res.Meta.TimeoutCounter {
+			ks = append(ks, k)
+		}
+		sort.Strings(ks)
+		for _, k := range ks {
+			parts = append(parts, fmt.Sprintf("T:%s=%v", k, res.Meta.TimeoutCounter[k].Slice))
+		}
+		ks = ks[:0]
+		for k := range res.Meta.MultiTxCounter {
+			ks = append(ks, k)
+		}
+		sort.Strings(ks)
+		for _, k := range ks {
+			parts = append(parts, fmt.Sprintf("M:%s=%v", k, res.Meta.MultiTxCounter[k].Slice))
+		}
+		l2 := []string{}
+		for _, x := range res.Meta.TimeoutL2Roots {
+			l2 = append(l2, x.String())
+		}
+		parts = append(parts, "L2:"+strings.Join(l2, ","))
+		meta = strings.Join(parts, ";")
+	}
+	str := func(x *types.Hash) string {
+		if x == nil {
+			return "nil"
+		}
+		return x.String()
+	}
+	return map[string]interface{}{"block": str(res.Block.BlockHash), "state": str(h.StateRoot), "tx": str(h.TxRoot), "receipt": str(h.ReceiptRoot),
+		"timeout": str(h.TimeoutRoot), "parent": str(h.ParentHash), "receipts": rc, "meta": meta}
+}
+
+// replicate feeds the block that the primary just executed to every replica, with the replica's perturbations
+func (r *runner) replicate(txs []pb.Transaction, primary *core.BlockResult) bool {
+	if len(r.reps) == 0 {
+		return true
+	}
+	h := int(primary.Block.BlockHeader.Number)
+	r.emit(map[string]interface{}{"ev": "Executed", "r": 0, "h": h, "d": digest(primary)})
+	for i, rep := range r.reps {
+		restart := i == 0 || r.rrng.Intn(4) == 0 // replica 1 restarts before every block
+		if restart {
+			if err := rep.Restart(); err != nil {
+				return false
+			}
+			r.emit(map[string]interface{}{"ev": "RepRestart", "r": i + 1, "h": int(rep.Height())})
+		}
+		if i == 1 && len(txs) > 0 { // replica 2 view-executes the block first
+			rep.View(txs)
+		}
+		res, err := rep.ExecBlock(txs, make([]bool, len(txs)), primary.Block.BlockHeader.Timestamp)
+		if err != nil {
+			r.emit(map[string]interface{}{"ev": "ExecError", "h": h, "cls": "replica", "msg": err.Error(), "height": int(rep.Height())})
+			return false
+		}
+		r.emit(map[string]interface{}{"ev": "Executed", "r": i + 1, "h": h, "d": digest(res)})
+	}
+	return true
 }
 
 func (r *runner) emit(m map[string]interface{}) {
@@ -283,7 +371,10 @@ func (r *runner) execBlock(txs []pb.Transaction, descs []map[string]interface{})
 		}
 	}
 	r.emit(ev)
-	return res != nil
+	if res == nil {
+		return false
+	}
+	return r.replicate(txs, res)
 }
 
 func (r *runner) gov(st Step) bool {
@@ -311,7 +402,7 @@ func (r *runner) gov(st Step) bool {
 		}
 	}
 	r.emit(ev)
-	if res == nil {
+	if res == nil || !r.replicate([]pb.Transaction{tx}, res) {
 		return false
 	}
 	if res.Receipts[0].Status != pb.Receipt_SUCCESS {
@@ -379,6 +470,51 @@ func (r *runner) run(dir string) {
 	}); err != nil {
 		panic(err)
 	}
+	setup := func(n *core.Node) error {
+		for _, u := range []string{"u1", "u2", "u3"} {
+			if _, err := n.Fund(n.Account(u).Addr, "6000000"); err != nil {
+				return err
+			}
+		}
+		for _, c := range p.Chains {
+			adm := n.Account("admin-" + c)
+			if _, err := n.Fund(adm.Addr, "3000000"); err != nil {
+				return err
+			}
+			if _, err := n.RegisterAppchain(adm, c); err != nil {
+				return err
+			}
+			for k := 1; k <= p.NSvc; k++ {
+				s := fmt.Sprintf("%s:svc%d", c, k)
+				if _, err := n.RegisterService(adm, c, fmt.Sprintf("svc%d", k), !unord[s], p.Black[s]); err != nil {
+					return err
+				}
+			}
+		}
+		return nil
+	}
+	r.rrng = rand.New(rand.NewSource(p.Seed*977 + int64(len(p.Steps))))
+	genesisRestart := []int{}
+	for i := 0; i < r.nrep; i++ {
+		o := opt
+		o.Dir = fmt.Sprintf("%s/r%d", dir, i+1)
+		o.ProofType = []string{"parallel", "serial"}[i%2]
+		rep, err := core.NewNode(o)
+		if err != nil {
+			panic(err)
+		}
+		defer rep.Close()
+		if i == 2 { // replica 3: stop / reopen right after genesis, before any block
+			if err := rep.Restart(); err != nil {
+				return
+			}
+			genesisRestart = append(genesisRestart, i+1)
+		}
+		if err := setup(rep); err != nil {
+			panic(err)
+		}
+		r.reps = append(r.reps, rep)
+	}
 	a := pair.A
 	admins := []string{}
 	for _, ad := range a.Admins() {
@@ -393,7 +529,8 @@ func (r *runner) run(dir string) {
 	}
 	bal0, _, _ := lockstep.Balances(a)
 	init := map[string]interface{}{"ev": "Init", "name": p.Name, "admins": admins, "nadmins": 4, "h": int(a.Height()), "bal": bal0,
-		"setupEqual": pair.SetupEqual(), "bxh": a.BxhID(), "svcs": svcs, "unordered": p.Unord, "audit": p.Audit}
+		"setupEqual": pair.SetupEqual(), "bxh": a.BxhID(), "svcs": svcs, "unordered": p.Unord, "audit": p.Audit,
+		"replicas": len(r.reps), "genesisRestart": genesisRestart}
 	for k, v := range r.observe(a, nil) {
 		init[k] = v
 	}
@@ -662,6 +799,7 @@ func main() {
 	n := flag.Int("n", 20, "")
 	start := flag.Int("start", 0, "")
 	mode := flag.String("mode", "", "group = one-to-many heavy")
+	nrep := flag.Int("replicas", 0, "extra replicas executing the same blocks (C01)")
 	flag.Parse()
 	var plans []*Plan
 	if *plansFile != "" {
@@ -696,7 +834,7 @@ func main() {
 		if err != nil {
 			panic(err)
 		}
-		r := &runner{plan: p, out: f}
+		r := &runner{plan: p, out: f, nrep: *nrep}
 		dir := fmt.Sprintf("%s/n%d", scratch, i)
 		r.run(dir)
 		f.Close()
